@@ -208,5 +208,11 @@ func scenC13(c *ctx) {
 				c.rec.Emit(c.hotpValidateCase(fmt.Sprintf("C13end%d", s), key, secret, ctr, P{Digits: d, Alg: a, Skew: s}, 0, ed))
 			}
 		}
+		// the first instants (the window reaches step 0 or below) and the last steps the instants of C04 reach
+		for _, sec := range []int64{0, 1, 29, 30, 30 * int64(s), 30*int64(s) + 29, 30 * (int64(s) + 1), (1<<62 - 1) - 30*int64(s)} {
+			for _, ed := range []string{"exact", "flip", "trunc1", "append0", "empty", "junk"} {
+				c.rec.Emit(c.totpValidateCase(fmt.Sprintf("C13endT%d", s), key, secret, sec, int(s), P{Digits: d, Alg: a, Skew: s, Period: 30}, 0, ed))
+			}
+		}
 	}
 }
